@@ -35,7 +35,11 @@ def showState (st : St) (r : Res) : String :=
   let pend := ";".intercalate ((sortBy (·.1) s.pending).map fun p => s!"{p.1}:{p.2.1}:{if p.2.2 then 1 else 0}")
   let bal := ",".intercalate ((List.range st.nActors).flatMap fun a =>
     (List.range s.nTokens).map fun t => toString (getBal s.bal (a, t)))
-  s!"{res} next={s.nextTxId},{s.nextBatchId},{s.nextCallId} pool=[{pool}] batches=[{batches}] calls=[{calls}] pend=[{pend}] obs={s.obsExt},{s.obsFx},{s.eventNonce} bal={bal}"
+  let erc := ",".intercalate ((List.range st.nActors).flatMap fun a =>
+    (List.range s.nTokens).map fun t => toString (getBal s.erc (a, t)))
+  let rel := ",".intercalate ((s.relTx.mergeSort (fun a b => a ≤ b)).map toString)
+  let fm := ",".intercalate ((s.fromMsg.mergeSort (fun a b => a ≤ b)).map toString)
+  s!"{res} next={s.nextTxId},{s.nextBatchId},{s.nextCallId} pool=[{pool}] batches=[{batches}] calls=[{calls}] pend=[{pend}] obs={s.obsExt},{s.obsFx},{s.eventNonce} bal={bal} erc={erc} rel=[{rel}] frommsg=[{fm}]"
 
 /-- the line also says whether the external-chain ghost (`Model/C05Ext.lean`) finds an observed event admissible -/
 def apply (st : St) (op : Op) : St × String :=
@@ -50,17 +54,30 @@ def str (w : String) : String := if w == "-" then "" else w
 
 def stepLine (st : St) (line : String) : St × String :=
   match words line with
-  | ["reset", na, nt, b0, p1, p2, p3, p4, fx] =>
-    match nat? na, nat? nt, nat? b0, nat? p1, nat? p2, nat? p3, nat? p4, nat? fx with
-    | some na, some nt, some b0, some p1, some p2, some p3, some p4, some fx =>
+  | ["reset", na, nt, b0, e0, p1, p2, p3, p4, fx] =>
+    match nat? na, nat? nt, nat? b0, nat? e0, nat? p1, nat? p2, nat? p3, nat? p4, nat? fx with
+    | some na, some nt, some b0, some e0, some p1, some p2, some p3, some p4, some fx =>
       let bal : Bal := (List.range na).flatMap fun a => (List.range nt).map fun t => ((a, t), b0)
-      ({ s := { init nt bal ⟨p1, p2, p3, p4⟩ with fxHeight := fx }, nActors := na }, "ok")
-    | _, _, _, _, _, _, _, _ => (st, "bad-op")
+      let erc : Bal := (List.range na).flatMap fun a => (List.range nt).map fun t => ((a, t), e0)
+      ({ s := { init nt bal ⟨p1, p2, p3, p4⟩ with fxHeight := fx, erc := erc }, nActors := na }, "ok")
+    | _, _, _, _, _, _, _, _, _ => (st, "bad-op")
   | "reset" :: _ => ({}, "ok")
   | ["send", a, d, t, am, f] =>
     match nat? a, nat? t, nat? am, nat? f with
     | some a, some t, some am, some f => apply st (.send a (str d) t am f)
     | _, _, _, _ => (st, "bad-op")
+  | ["psend", a, d, t, am, f] =>
+    match nat? a, nat? t, nat? am, nat? f with
+    | some a, some t, some am, some f => apply st (.psend a (str d) t am f)
+    | _, _, _, _ => (st, "bad-op")
+  | ["pcall", a, r, to, d, m, cs] =>
+    match nat? a, nat? r, parseCoins cs with
+    | some a, some r, some cs => apply st (.pcall a r (str to) (str d) (str m) cs)
+    | _, _, _ => (st, "bad-op")
+  | ["pcancel", id, who] =>   -- `cancelSendToExternal` precompile: the same keeper entry point as the message
+    match nat? id, nat? who with
+    | some id, some who => apply st (.cancel id who)
+    | _, _ => (st, "bad-op")
   | ["cancel", id, who] =>
     match nat? id, nat? who with
     | some id, some who => apply st (.cancel id who)
@@ -97,6 +114,8 @@ def stepLine (st : St) (line : String) : St × String :=
     match nat? p1, nat? p2, nat? p3, nat? p4 with
     | some p1, some p2, some p3, some p4 => apply st (.setParams ⟨p1, p2, p3, p4⟩)
     | _, _, _, _ => (st, "bad-op")
+  | ["genesis"] =>   -- export + import of the module's genesis: the identity on everything compared here
+    (st, showState st (.ok 0) ++ " adm=-")
   | ["block", n] =>
     match nat? n with
     | some n => apply st (.block n)
